@@ -236,6 +236,29 @@ class WebProcessorSession(BaseProcessorSession):
 
             verdict, reason = self._should_fetch_reason()
 
+            if verdict:
+                # The target of a redirect is subject to robots.txt too
+                # (possibly the one of another site).
+                try:
+                    can_fetch = yield from self._fetch_rule.consult_robots_txt(
+                        self._item_session.request)
+                except REMOTE_ERRORS as error:
+                    self._log_error(self._item_session.request, error)
+                    self._result_rule.handle_error(self._item_session, error)
+
+                    wait_time = self._result_rule.get_wait_time(
+                        self._item_session, error=error
+                    )
+
+                    if wait_time:
+                        yield from asyncio.sleep(wait_time)
+
+                    break
+
+                if not can_fetch:
+                    verdict = False
+                    reason = 'robotstxt'
+
             _logger.debug('Filter verdict {} reason {}', verdict, reason)
 
             if not verdict:
